@@ -40,7 +40,13 @@ func init() {
 		Rule: "one case = one generated workflow (emphasis on fan-out of one out-port to several consumers incl. tagging components, fan-in with concurrent port closing, multi-core tasks, parameter feeders, RunTo; also streaming pairs, lazily loaded records, 2-3 taggers in a row, one or two failing commands) run under one tape-chosen schedule on the race-instrumented build; the in-simulator happens-before checker (vector clocks, edges only from go / channel send-receive / close / mutex / WaitGroup as in the Go memory model) reports every pair of conflicting accesses to a tracked location (maps, struct fields reached through pointers, object graphs handed to encoding/json) that is unordered in that execution. distinct = event-log hash; non-trivial = >=2 tasks and >=1 non-default choice",
 		Run: func(c *Case) Verdict {
 			var w *WF
-			switch c.Tape.Choose(simrt.StGen, 7, 0) {
+			switch c.Tape.Choose(simrt.StGen, 9, 0) {
+			case 4:
+				// one of the bundled components in its small harness workflow (C19's
+				// shapes): combinators with several in-ports, selector, splitter,
+				// concatenator, globbers, parameter readers
+				w, _ = componentCase(c)
+				c.Probe("race-component-shape")
 			case 1:
 				w = lazyIPFanoutWF(c)
 			case 2:
